@@ -174,7 +174,7 @@ var c03Alphabet = []string{"(", ")", "[", "]", "'", "#'", "#^", "\"", ";", " ", 
 
 func c03Stressor(r *fw.RNG) (string, string) {
 	n := []int{1000, 20000, 100000, 1000000}[r.Intn(4)]
-	switch r.Intn(26) {
+	switch r.Intn(30) {
 	case 0:
 		return "deep-parens", strings.Repeat("(", n)
 	case 1:
@@ -229,6 +229,31 @@ func c03Stressor(r *fw.RNG) (string, string) {
 		return "long-string", "\"" + strings.Repeat("\\n", n/2) + "\""
 	case 23:
 		return "nested-load-string", "(defun l (n) (load-string (format-string \"(l {})\" (+ n 1))))\n(l 0)"
+	case 26, 27, 28, 29:
+		// the cycle matrix: one self-containing value (the cycle may pass through maps,
+		// vectors, lists, user-typed objects, in one or several hops) handed to every
+		// consumer that walks a value; each consumer is guarded so that all of them run
+		kinds := []struct{ name, build string }{
+			{"map", "(set 'c (sorted-map)) (assoc! c \"self\" c)"},
+			{"vector", "(set 'c (vector 1)) (append! c c)"},
+			{"map-map", "(set 'c (sorted-map)) (set 'd (sorted-map \"up\" c)) (assoc! c \"down\" d)"},
+			{"tagged-map", "(deftype node (f) f) (set 'fields (sorted-map)) (set 'c (new node fields)) (assoc! fields \"self\" c)"},
+			{"tagged-vector", "(deftype box (f) f) (set 'cells (vector 1)) (set 'c (new box cells)) (append! cells c)"},
+			{"map-in-tagged-in-map", "(deftype wrap (f) f) (set 'c (sorted-map)) (assoc! c \"w\" (new wrap (sorted-map \"back\" c)))"},
+			{"list-in-vector", "(set 'c (vector 1)) (append! c (list 1 c 2))"},
+			{"vector-in-map-in-vector", "(set 'c (vector)) (append! c (sorted-map \"v\" (vector c)))"},
+			{"two-hop-tagged", "(deftype n2 (f) f) (set 'm1 (sorted-map)) (set 'm2 (sorted-map \"a\" (new n2 m1))) (set 'c (new n2 m2)) (assoc! m1 \"b\" c)"},
+		}
+		k := fw.Pick(r, kinds)
+		consumers := []string{"(json:dump-string c)", "(json:dump-bytes c)", "(to-string c)", "(format-string \"{}\" c)", "(debug-print c)", "(equal? c c)", "(equal? c (list c))",
+			"(format-string \"{}\" (vector c c))", "(error 'carrier c)", "(sorted-map \"k\" c)", "(json:dump-string (sorted-map \"k\" (vector c)))", "(string:join (list (to-string c)) \",\")",
+			"(length (format-string \"{} {}\" c c))", "(s:validate s:any c)", "(assert false \"{}\" c)", "(concat 'string \"\" (to-string (list c)))", "(type c)", "(user-data c)", "(map 'list identity (list c c))"}
+		var sb strings.Builder
+		sb.WriteString(k.build + "\n")
+		for _, cons := range consumers {
+			sb.WriteString("(handler-bind ((condition (lambda (e &rest a) 'refused))) " + cons + ")\n")
+		}
+		return "cycle-matrix:" + k.name, sb.String()
 	case 24:
 		return "self-path", "(set 'm (sorted-map))\n(assoc! m \"self\" m)\n(list (elpspath:get m \"$..self\") (elpspath:get m \"$..*\"))"
 	default:
